@@ -60,3 +60,30 @@ class HookProc(plumpy.Process):
     def on_finished(self):
         super().on_finished()
         self.seen.append(('on_finished', plumpy.Process.current()))
+
+
+def make_chain(outline_builder, oracle):
+    """a WorkChain class whose steps s0.. and predicates p0.. log their calls and answer from `oracle` (a dict name->list)"""
+    import plumpy
+
+    log = []
+
+    def mk(name):
+        def fn(self):
+            log.append(name)
+            vals = oracle.get(name, [])
+            i = sum(1 for x in log if x == name) - 1
+            return vals[i] if i < len(vals) else (False if name.startswith('p') else None)
+        fn.__name__ = name
+        return fn
+
+    ns = {n: mk(n) for n in ['s0', 's1', 's2', 's3', 'p0', 'p1', 'p2']}
+
+    def define(cls, spec):
+        super(Chain, cls).define(spec)
+        spec.outline(*outline_builder(cls))
+
+    ns['define'] = classmethod(define)
+    Chain = type('Chain', (plumpy.WorkChain,), ns)
+    Chain.log = log
+    return Chain
